@@ -99,6 +99,11 @@ def _commutative_body(func: Func, loop: ast.AST, body: list[ast.stmt], target_na
                 if bad:
                     return bad
             continue
+        if isinstance(stmt, ast.With) and getattr(stmt, "ngosa_inline", None):
+            bad = _commutative_body(func, loop, [s for s in stmt.body if not isinstance(s, ast.Return)], target_names)
+            if bad:
+                return bad
+            continue
         if isinstance(stmt, (ast.For, ast.While)):
             inner_targets = target_names | ({n.id for n in ast.walk(stmt.target) if isinstance(n, ast.Name)} if isinstance(stmt, ast.For) else set())
             _ITER_LOCAL.setdefault(id(loop), set()).update(fresh_here)
